@@ -298,6 +298,68 @@ def gen_request_during_post_start(rng):
     return {"actors": actors, "msgs": msgs, "ops": ops}
 
 
+def gen_hot_mailbox(rng):
+    """A mailbox of >= 128 messages whose handlers never suspend, and a second actor whose handler
+    calls stop() on the first one: tokio's cooperative budget (128 units per task poll) forces the
+    hot actor's task to yield between 'message dequeued' and 'handler started' at every 128th
+    consecutive pick, and a stop() landing in that gap is followed by one more handler start
+    (finding F12, C03; docs/notes/C03.md).  Only drawn for C03."""
+    trivial = ([], ("ok",))
+    n = rng.choice([130, 200, 260, 300])
+    actors = [{"pre": trivial, "ps": trivial, "stop": trivial, "sup": None, "link": None},
+              {"pre": trivial, "ps": trivial, "stop": trivial, "sup": None, "link": None}]
+    req = rng.choice([("x", 0, None), ("x", 0, 10)])
+    msgs = {1: trivial, 2: trivial, 3: trivial, 4: ([req], ("ok",))}
+    ops = [("spawn", 0), ("spawn", 1), ("settle",)] + [("send", 0, rng.choice([1, 1, 2, 3]))] * n + [("send", 1, 4), ("settle",)]
+    return {"actors": actors, "msgs": msgs, "ops": ops, "family": "hot_mailbox"}
+
+
+def f12_signature(itr, verdict):
+    """finding F12: every rejected code is 32 (a message handler started after stop() had returned), and for each such
+    actor the offending handler start is the 128k-th consecutive pick of a run of handlers that never suspended, the
+    stop request having arrived between the previous handler's end and that start (no handler of the actor was running)"""
+    try:
+        codes = verdict[1] if isinstance(verdict, tuple) else verdict
+        if not isinstance(codes, list) or not any(c == 32 for c in codes) or any(c not in (0, 32) for c in codes):
+            return False
+        if isinstance(verdict, tuple) and len(verdict) > 2 and verdict[2] != "true":
+            return False
+        for a, c in enumerate(codes):
+            if c != 32:
+                continue
+            streak = 0
+            stop_at = None
+            running = False
+            ok = False
+            for e in itr:
+                if not isinstance(e, tuple):
+                    continue
+                k = e[0]
+                if k == "TStopReq" and e[1] == a and stop_at is None:
+                    if running:
+                        return False
+                    stop_at = streak
+                elif k in ("TPark", "TWake") and e[1] == a:
+                    streak = 0
+                elif k == "TEnter" and e[1] == a:
+                    cb = e[2]
+                    if isinstance(cb, tuple) and cb[0] == "Handle":
+                        if stop_at is not None:
+                            ok = (streak % 128 == 127)
+                            break
+                        streak += 1
+                        running = True
+                    else:
+                        streak = 0
+                elif k == "TExit" and e[1] == a:
+                    running = False
+            if not ok:
+                return False
+        return True
+    except Exception:
+        return False
+
+
 def gen_fail_with_pending_stop(rng):
     """A callback after pre_start fails (Err or panic) while a graceful stop / drain request for the
     same actor is already pending: the handler itself asked for the stop before failing, or an outside
@@ -797,6 +859,13 @@ def compare_build(chk, scs, build, tag, oracle_fn, accept, what, distinct, mode=
                           + json.dumps(desc, indent=1) + f"\nbuild: {tag}" + "\nreplay: echo '<scenario>' | harness/target/debug/eng_world\n",
                           failing_input=(chk.prop == "C03"))
             continue
+        if not accept(oracle) and chk.prop == "C03" and "F12" in {f["id"] for f in chk.finding_entries()} \
+                and f12_signature(itr, oracle):
+            chk.known_finding("F12", "a stop() that lands in the forced cooperative-budget yield between the 128th consecutive message pick and "
+                                     "its handler's first poll is followed by one more handler start (tokio coop budget; hot mailbox of "
+                                     ">= 128 non-suspending handlers); e.g. corpus/C03/f12_hot_mailbox_stop.json")
+            chk.count(pre + "known.F12")
+            continue
         if not accept(oracle):
             if not shrunk:
                 # minimise the first failing scenario against the real code
@@ -1057,7 +1126,9 @@ def run_loop_check(chk, oracle_fn, focus, what, accept=lambda o: o == "true", co
     ncorpus = len(scs) + sum(len(v) for v in lscs.values())
     ncorpus_send, ncorpus_l = len(scs), {m: len(v) for m, v in lscs.items()}
     for k in range(n_cases):
-        if k % 40 == 39:
+        if chk.prop == "C03" and k % 100 == 57:
+            scs.append(gen_hot_mailbox(chk.rng))
+        elif k % 40 == 39:
             scs.append(gen_many_children(chk.rng))
         elif k % 20 == 13:
             scs.append(gen_fail_with_pending_stop(chk.rng))
